@@ -73,15 +73,15 @@ theorem rset_len (sel : Sel) (adm : Admissible sel) (inc exc : List (List Int))
     before a mutator after that mutator equals the specification of the members present at that
     moment — cache on or off, any interleaving of additions, queries, kept and dropped iterators. -/
 theorem history_inv (cacheOn : Bool) (ops : List Op) (hsorted : ∀ op ∈ ops, opSorted op)
-    (hfresh : NoStale {} ops) :
+    (hfresh : NoStale {} ops) (hfit : AllFit {} ops) :
     runOps (newState cacheOn) ops = specOps {} ops :=
-  history_good ops (newState cacheOn) {} (good_init cacheOn) hsorted hfresh
+  history_good ops (newState cacheOn) {} (good_init cacheOn) hsorted hfresh hfit
 
 /-- in particular for histories whose iterators are all dropped at once (iterPartial k = `.take k`) -/
 theorem history_inv_dropped (cacheOn : Bool) (ops : List Op) (hsorted : ∀ op ∈ ops, opSorted op)
-    (hq : ∀ op ∈ ops, ∀ j k, op ≠ .resume j k) :
+    (hq : ∀ op ∈ ops, ∀ j k, op ≠ .resume j k) (hfit : AllFit {} ops) :
     runOps (newState cacheOn) ops = specOps {} ops := by
-  apply history_inv cacheOn ops hsorted
+  refine history_inv cacheOn ops hsorted ?_ hfit
   have : ∀ (tr : Track) (ops : List Op), (∀ op ∈ ops, ∀ j k, op ≠ .resume j k) → NoStale tr ops := by
     intro tr ops
     induction ops generalizing tr with
